@@ -159,9 +159,9 @@ class RF24MeshNoMaster(NetworkMixin):
                 self.block_less_callback()
             if time.monotonic_ns() > timeout:
                 return -1
-        if lookup_type == MESH_ADDR_LOOKUP:
-            return struct.unpack("<H", self.frame_buf.message[:2])[0]
-        return self.frame_buf.message[0]
+        if len(self.frame_buf.message) >= 2:  # a signed 16-bit answer (-2 = not assigned)
+            return struct.unpack("<h", self.frame_buf.message[:2])[0]
+        return self.frame_buf.message[0] if self.frame_buf.message else -1
 
     def check_connection(self, attempts: int = 3, ping_master: bool = False) -> bool:
         """Check for network connectivity (not for use on master node)."""
@@ -337,18 +337,19 @@ class RF24Mesh(RF24MeshNoMaster):
         if msg_t == MESH_ADDR_REQUEST and self.frame_buf.header.reserved:
             self._do_dhcp = True
         if not self.lookup_node_id():  # if this is the master node
-            if msg_t in (MESH_ADDR_LOOKUP, MESH_ID_LOOKUP):
+            if msg_t in (MESH_ADDR_LOOKUP, MESH_ID_LOOKUP) and len(
+                self.frame_buf.message
+            ) >= (1 if msg_t == MESH_ADDR_LOOKUP else 2):  # ignore truncated requests
                 self.frame_buf.header.to_node = self.frame_buf.header.from_node
 
                 ret_val = 0  # will be -2 for requesting un-assigned nodes
                 if msg_t == MESH_ADDR_LOOKUP:
                     ret_val = self.lookup_address(self.frame_buf.message[0])
-                    self.frame_buf.message = struct.pack("<H", ret_val)
                 else:
                     ret_val = self.lookup_node_id(
                         struct.unpack("<H", self.frame_buf.message[:2])[0]
                     )
-                    self.frame_buf.message = bytes([ret_val])
+                self.frame_buf.message = struct.pack("<h", ret_val)  # signed: -2
                 self._write(self.frame_buf.header.to_node, TX_NORMAL)
             elif msg_t == MESH_ADDR_RELEASE:
                 self.release_address(self.frame_buf.header.from_node)
